@@ -20,7 +20,7 @@ from esim.simfile import SimFile
 from . import base
 
 ID = "C06"
-QUICK_RUNS = 4000
+QUICK_RUNS = 6000
 THOROUGH_RUNS = 250000
 LEVEL = "exploration"
 RULE = ("NODES run = one generated program handing work to other threads on other simulated processes "
